@@ -114,13 +114,14 @@ PROPS = {
     ),
     "C04": dict(
         level="proof",
+        search_seeds=3,
         model_timeout=3600,
         extra_lean_targets=["LdpcV.Props.C04Real", "LdpcV.Props.C04Table", "LdpcV.Props.C04Track", "LdpcV.Props.C04Round"],
         extra_prop_files=["LdpcV/Props/C04Real.lean", "LdpcV/Props/C04Table.lean", "LdpcV/Props/C04Track.lean", "LdpcV/Props/C04Round.lean"],
         trusted_base=[KERNEL, CORR,
                       "8-bit rules: exact integer model lean/LdpcV/Model/ArithI8.lean (i8/i16 as Int with explicit overflow checks); the correction table is a "
                       "literal in the model and is compared entry by entry with the table read from the Debug text of every Rust arithmetic object",
-                      "float rules (phi, tanh, min*-approx, A-Min* in f32/f64): real-number semantics (C04Real) and, for the min*-approx rule, the STANDARD MODEL "
+                      "float rules (phi, tanh, min*-approx, A-Min* in f32/f64): real-number semantics (C04Real) and, for the min*-approx, A-Min* and tanh rules, the STANDARD MODEL "
                       "of floating-point arithmetic (C04Round: every + - * / returns the exact result times (1+d), |d| <= u; exp / ln_1p relative accuracy e; "
                       "negation, abs, max, min, comparisons exact; FpModel is a hypothesis structure, no axiom). That IEEE-754 round-to-nearest satisfies this model away "
                       "from overflow / subnormal underflow / NaN, and the accuracy e of the platform's libm, are TRUSTED, not proved"],
@@ -135,9 +136,9 @@ PROPS = {
               "rule, <= smallest other; plus 6000 (100000) SEQUENCES of 2-5 check-node calls on ONE float arithmetic object with alternating high / low degrees; "
               "non-trivial = degree >= 2; distinct = distinct canonical input"),
         assumptions=COMMON_ASSUME,
-        partial=["IEEE rounding: bounded by a theorem (C04Round, standard model, no overflow/underflow) for the min*-approx rule only — one message per neighbour, exact sign "
-                 "rule, magnitude <= b^(d-2) x smallest other, value within (d-2)*eta(B) of the real rule; for the phi, tanh and A-Min* rules rounding is covered by the "
-                 "tanh-domain comparison only",
+        partial=["IEEE rounding: bounded by theorems (C04Round, standard model, no overflow/underflow) for the min*-approx rule (one message per neighbour, exact sign "
+                 "rule, magnitude <= b^(d-2) x smallest other, value within (d-2)*eta(B) of the real rule), the A-Min* rule (within (d-1)*etaF(B+1)) and the tanh rule "
+                 "(tanh domain, under the hypothesis that the rounded product stays below 1); for the phi rule rounding is covered by the tanh-domain comparison only",
                  "'within accumulated table rounding' is proved with explicit constants (C04Track): (steps)/2 units for the approximate fold, (steps) units for the "
                  "exact-form fold, (d-2)/2 resp. (d-1) units for the emitted messages of the whole rules against the same rule text at R on inputs / 8; with "
                  "partial hard limiting the bound is stated for emitted magnitudes below 100 only (the documented promotion)"],
@@ -294,6 +295,7 @@ PROPS = {
     ),
     "C12": dict(
         level="proof",
+        search_seeds=3,
         trusted_base=[KERNEL + " (Mathlib real analysis)", CORR,
                       "the chain theorem is about the REAL-NUMBER semantics of lean/LdpcV/Model/Chain.lean (composition of the C15 block re-orderings and the C14 "
                       "modulators / demodulators); the implementation is observed through an injected DecoderFactory whose decoder records every LLR vector it is handed",
@@ -381,6 +383,7 @@ PROPS = {
     ),
     "C20": dict(
         level="proof",
+        search_seeds=2,
         needs_binary=True,
         harness_timeout=3600,
         trusted_base=[KERNEL, CORR,
